@@ -213,6 +213,10 @@ def c02(lines, out):
             sends[t[3]] = ('tell', t[1], t[2], '-', t[4])
         if t[0] == 'pub' and r.result == '0':
             sends[t[3]] = ('pub', t[1], None, t[2], t[4])
+        if t[0] == 'burst' and isint(r.result):
+            # count tells in a row with consecutive payloads
+            for i in range(int(t[5])):
+                sends['p%d' % (int(t[3][1:]) + i)] = ('tell', t[1], t[2], '-', t[4])
     seen = set()
     freed = set()
     for o in tr.out:
